@@ -29,7 +29,7 @@ def main():
     orig = None
     for f in os.listdir(seed):
         try:
-            m = re.search(r"/tmp/mut2?-[A-Za-z0-9_-]+", open(os.path.join(seed, f), errors="ignore").read())
+            m = re.search(r"/tmp/mut\d*-C\d\d", open(os.path.join(seed, f), errors="ignore").read())
         except Exception:
             m = None
         if m:
